@@ -254,11 +254,35 @@ theorem permuteList_perm (q : List Int) : (permuteList q (stableArgsort q)).Perm
 theorem mem_permuteList (q : List Int) (c : Int) : c ∈ permuteList q (stableArgsort q) ↔ c ∈ q :=
   (permuteList_perm q).mem_iff
 
-theorem srt_ctx {dqr : Mat 𝕜 → Mat 𝕜 × Mat 𝕜} (hshape : QRShape dqr) (A : Mat 𝕜) (q0 q1 : List Int)
+/-- the matrices handed to the dense kernel by `qr dqr A q0 q1`, in order -/
+def blocks (A : Mat 𝕜) (q0 q1 : List Int) : List (Mat 𝕜) :=
+  (intersect1d q0 q1).map (blk (srt A q0 q1).2.2 (srt A q0 q1).1 (srt A q0 q1).2.1)
+
+theorem mem_blocks (A : Mat 𝕜) (q0 q1 : List Int) (hq0 : q0.length = A.m) (hq1 : q1.length = A.n) {c : Int}
+    (h0 : c ∈ (srt A q0 q1).1) (h1 : c ∈ (srt A q0 q1).2.1) :
+    blk (srt A q0 q1).2.2 (srt A q0 q1).1 (srt A q0 q1).2.1 c ∈ blocks A q0 q1 := by
+  obtain ⟨s0, s1, -⟩ := srt_spec A q0 q1 hq0 hq1
+  rw [s0, mem_permuteList] at h0
+  rw [s1, mem_permuteList] at h1
+  exact List.mem_map_of_mem (mem_intersect1d.2 ⟨h0, h1⟩)
+
+/-- the shape clause of the kernel contract, required only at the blocks of the run -/
+def QRShape (dqr : Mat 𝕜 → Mat 𝕜 × Mat 𝕜) (A : Mat 𝕜) (q0 q1 : List Int) : Prop :=
+  ∀ B ∈ blocks A q0 q1, ShapeAt dqr B
+
+/-- the product clause of the kernel contract, required only at the blocks of the run -/
+def QRProduct (dqr : Mat 𝕜 → Mat 𝕜 × Mat 𝕜) (A : Mat 𝕜) (q0 q1 : List Int) : Prop :=
+  ∀ B ∈ blocks A q0 q1, ProdAt dqr B
+
+/-- the isometry clause of the kernel contract, required only at the blocks of the run -/
+def QRIso [StarRing 𝕜] (dqr : Mat 𝕜 → Mat 𝕜 × Mat 𝕜) (A : Mat 𝕜) (q0 q1 : List Int) : Prop :=
+  ∀ B ∈ blocks A q0 q1, IsoAt dqr B
+
+theorem srt_ctx {dqr : Mat 𝕜 → Mat 𝕜 × Mat 𝕜} (A : Mat 𝕜) (q0 q1 : List Int) (hshape : QRShape dqr A q0 q1)
     (hq0 : q0.length = A.m) (hq1 : q1.length = A.n) :
     SortedCtx dqr (srt A q0 q1).2.2 (srt A q0 q1).1 (srt A q0 q1).2.1 := by
   obtain ⟨s0, s1, sm, sn, -⟩ := srt_spec A q0 q1 hq0 hq1
-  refine ⟨?_, ?_, ?_, ?_, hshape⟩
+  refine ⟨?_, ?_, ?_, ?_, fun _ h0 h1 => hshape _ (mem_blocks A q0 q1 hq0 hq1 h0 h1)⟩
   · rw [s0]; exact stableArgsort_sorted q0
   · rw [s1]; exact stableArgsort_sorted q1
   · rw [s0, sm, permuteList_length, stableArgsort_length, hq0]
@@ -294,21 +318,23 @@ theorem srt_sparse (A : Mat 𝕜) (q0 q1 : List Int) (hq0 : q0.length = A.m) (hq
   exact hsp _ _ (by omega) (by omega) hne
 
 /-- `BaseInv` for the actual loop of `qr` -/
-theorem loopState_base {dqr : Mat 𝕜 → Mat 𝕜 × Mat 𝕜} (hshape : QRShape dqr) (A : Mat 𝕜) (q0 q1 : List Int)
+theorem loopState_base {dqr : Mat 𝕜 → Mat 𝕜 × Mat 𝕜} (A : Mat 𝕜) (q0 q1 : List Int) (hshape : QRShape dqr A q0 q1)
     (hq0 : q0.length = A.m) (hq1 : q1.length = A.n) :
     BaseInv (srt A q0 q1).2.2 (srt A q0 q1).1 (srt A q0 q1).2.1 (intersect1d q0 q1) (loopState dqr A q0 q1) :=
-  baseInv_foldl (srt_ctx hshape A q0 q1 hq0 hq1) (pairwise_intersect1d q0 q1) (srt_mem A q0 q1 hq0 hq1) _ _ _ _
+  baseInv_foldl (srt_ctx A q0 q1 hshape hq0 hq1) (pairwise_intersect1d q0 q1) (srt_mem A q0 q1 hq0 hq1) _ _ _ _
 
-theorem loopState_prod {dqr : Mat 𝕜 → Mat 𝕜 × Mat 𝕜} (hshape : QRShape dqr) (hprod : QRProduct dqr)
-    (A : Mat 𝕜) (q0 q1 : List Int) (hq0 : q0.length = A.m) (hq1 : q1.length = A.n) :
+theorem loopState_prod {dqr : Mat 𝕜 → Mat 𝕜 × Mat 𝕜} (A : Mat 𝕜) (q0 q1 : List Int)
+    (hshape : QRShape dqr A q0 q1) (hprod : QRProduct dqr A q0 q1) (hq0 : q0.length = A.m) (hq1 : q1.length = A.n) :
     ProdInv (srt A q0 q1).2.2 (srt A q0 q1).1 (srt A q0 q1).2.1 (intersect1d q0 q1) (loopState dqr A q0 q1) :=
-  prodInv_foldl (srt_ctx hshape A q0 q1 hq0 hq1) hprod (pairwise_intersect1d q0 q1)
+  prodInv_foldl (srt_ctx A q0 q1 hshape hq0 hq1) (fun _ h0 h1 => hprod _ (mem_blocks A q0 q1 hq0 hq1 h0 h1))
+    (pairwise_intersect1d q0 q1)
     (srt_mem A q0 q1 hq0 hq1) _ _ _ _
 
-theorem loopState_iso [StarRing 𝕜] {dqr : Mat 𝕜 → Mat 𝕜 × Mat 𝕜} (hshape : QRShape dqr) (hiso : QRIso dqr)
-    (A : Mat 𝕜) (q0 q1 : List Int) (hq0 : q0.length = A.m) (hq1 : q1.length = A.n) :
+theorem loopState_iso [StarRing 𝕜] {dqr : Mat 𝕜 → Mat 𝕜 × Mat 𝕜} (A : Mat 𝕜) (q0 q1 : List Int)
+    (hshape : QRShape dqr A q0 q1) (hiso : QRIso dqr A q0 q1) (hq0 : q0.length = A.m) (hq1 : q1.length = A.n) :
     IsoInv (srt A q0 q1).2.2 (loopState dqr A q0 q1) :=
-  isoInv_foldl (srt_ctx hshape A q0 q1 hq0 hq1) hiso (pairwise_intersect1d q0 q1)
+  isoInv_foldl (srt_ctx A q0 q1 hshape hq0 hq1) (fun _ h0 h1 => hiso _ (mem_blocks A q0 q1 hq0 hq1 h0 h1))
+    (pairwise_intersect1d q0 q1)
     (srt_mem A q0 q1 hq0 hq1) _ _ _ _
 
 end Ptn.BondOps
